@@ -61,9 +61,12 @@ def _run(params, values):
         na = nlines(a)
         probe, _ = block_parse(md, a + "\nzz\n")
         va = _views(ta)
-        vp = _views(probe)
-        if len(vp) != len(va) + 3 or vp[: len(va)] != va or probe[-3].type != "paragraph_open" or probe[-3].map != [na + 1, na + 2] \
-                or probe[-2].content != "zz" or probe[-3].level != 0:
+        # "A ends closed": a paragraph after a blank line starts a NEW top-level block.  Decided on structure only (types, levels,
+        # maps) - not on the fields the property itself is about (hidden/tight flags, content), or a leak would hide itself here.
+        shape_a = [(t.type, t.level, t.map) for t in ta]
+        shape_p = [(t.type, t.level, t.map) for t in probe]
+        if len(shape_p) != len(shape_a) + 3 or shape_p[: len(shape_a)] != shape_a or probe[-3].type != "paragraph_open" \
+                or probe[-3].map != [na + 1, na + 2] or probe[-2].content != "zz" or probe[-3].level != 0:
             return [], "assume: A does not end closed"
         tb, _ = block_parse(md, b)
         la = _last_top(ta)
